@@ -55,7 +55,7 @@ _w("C08", 25, 600,
     "reinitialize on storage that holds no roots record may fail on back ends whose Remove reports absent entries (file): not judged"])
 _w("C03", 25, 600,
    "each case = (request origin: library-created under the sim clock or harness-built with an arbitrary window) x (wire corruption: none, one bit of bundle or signature, multi-byte overwrite, truncation, swapped signature) x (missing/unsupported fields) x (placement of now: inside, within 1ns of either skewed or unskewed edge, far before/after) x (not-before/not-after skews from +-{0,1ns,1s,1m,1h}) x (AuthorizeNode or FetchNodeCredentials) on a recording storage. Windows reaching before 1678 / after 2262 (containing now, or entirely outside) are included. Non-trivial: every corrupted, boundary or skewed case; distinct by (target, corruption, field case, placement, skews, origin).",
-   ["a request is 'processed' iff the call made at least one storage operation; a refused request must make none",
+   ["a request counts as 'processed' iff the call made a Store/Remove or looked up a node record or token (the data an authorization decision rests on); a refused request must do none of that - merely reading the roots first would not count",
     "on an exact boundary either behaviour is accepted; 'documented fetch lifetime' is 24h (const.go DefaultFetchCredentialsLifetime doc comment)"])
 _w("C05", 25, 600,
    "each case = (1-4 records under one node ID in a tape-chosen lookup order, records under another node ID, a record without node ID, an unregistered key) x (claimed key) x (nonce signer: claimed key, another registered key, unregistered key, none, forged) x (client state absent/present, signer drawn independently) x (node-ID hint absent/matching/foreign/unknown) x (storage is/is not a NodeIdLoader) x (local skip-verification). Non-trivial: all; distinct by (lookup path, signer classes, scope size, first index of the lookup order).",
